@@ -4,22 +4,49 @@ import os
 
 HERE = os.path.dirname(os.path.abspath(__file__))
 
+NOTE = ("Trusted: CPython data model, the symx proxies/explorer (cross-checked on sampled paths by concrete witness replay of the real code on "
+        "solver-chosen inputs), z3. Numbers are exact reals/integers, not IEEE floats. Claim is bounded: nothing is said above the stated sizes.")
+TECH = "symbolic execution of the real Python code with z3 (own engine symx): exhaustive path enumeration within bounds, one validity query per clause per path, concrete replay of counterexamples"
+
 CHECKS = {
-    # id: (design_ref, text, note, technique)
-    "C13": ("5/C13", "Bounded symbolic model checking of the real getSegments: every feasible path for lists of up to 6 (quick) / 8 "
-            "(thorough) scored positions with unbounded real scores and thresholds; each clause of the statement is one validity "
-            "query per path.",
-            "Trusted: CPython data model, symx proxies (cross-checked by per-path concrete witness replay), z3. Exact reals, not IEEE floats.",
-            "symbolic execution of the real Python code with z3 (own engine symx), exhaustive path enumeration within bounds"),
+    # id: (design_ref, text)
+    "C01": ("5/C01", "Whole real Aligner.align run symbolically on tiny maps (<= 3 reference x 2 query labels, <= 3 seeds, both strands, symbolic "
+            "coordinates, seeds and scoring parameters): on every feasible path the returned pairs are checked to be a one-to-one collinear matching of existing labels."),
+    "C03": ("5/C03", "Real AlignmentResultRow.cigarString on every valid matching of <= 4 (quick) / 5 (thorough) pairs with label gaps <= 3 / 4, both "
+            "orientations, first pair's label numbers unbounded: the string is replayed from the first pair and must give exactly the listed pairs."),
+    "C04": ("5/C04", "Same exploration as C01 with the aligner built by the real WorkflowCoordinatorFactory from symbolic command-line values; one validity "
+            "query per path shows Confidence equals the score recomputed from raw maps, seed and parameters, offsets <= maxPairDistance, spans fully accounted."),
+    "C12": ("5/C12", "Real AlignerEngine.align on <= 3 x 3 (quick) / 5 x 4 (thorough) labels, both strands, coincident labels, label-number offsets; all "
+            "coordinates, seed, window end, maxDistance symbolic; clauses (a)-(e) of the statement as validity queries per path."),
+    "C13": ("5/C13", "Real getSegments on lists of <= 6 (quick) / 8 (thorough) scored positions with unbounded real scores and thresholds; each clause of the "
+            "statement is one validity query per path, incl. the converse for the empty result."),
+    "C14": ("5/C14", "Real SegmentChainer.chain with an arbitrary admissible scorer (<= 4/5 segments; maximality against every order-respecting subset in one "
+            "query), real SequentialityScorer.getScore in non-linear real arithmetic (both strands/variants), and real chainer+scorer on 2-3 segments."),
+    "C15": ("5/C15", "Same exploration as C01; resolveConflicts' input and every pairwise resolution are observed: results are contiguous sub-runs of inputs with "
+            "recomputed scores, no two result segments share a label or cross, pairs outside the overlap are kept."),
 }
 
 NOT_APPLICABLE = {
+    "C06": "FFT cross-correlation and scipy.signal.find_peaks (floating point, compiled code, thousands of bins) cannot be executed symbolically; assuming the seed contract would assume the conclusion (DESIGN section 6)",
+    "C18": "writer/reader are thin layers over pandas to_csv/read_csv, str.format and int(): every symbolic value is realised at those C boundaries and the string<->int theories did not terminate in probes (DESIGN section 6)",
+    "C02": "harness not built yet",
+    "C05": "harness not built yet",
+    "C07": "harness not built yet",
+    "C08": "harness not built yet",
+    "C09": "harness not built yet",
+    "C10": "harness not built yet",
+    "C11": "harness not built yet",
+    "C16": "harness not built yet",
+    "C17": "harness not built yet",
+    "C19": "harness not built yet",
+    "C20": "harness not built yet",
 }
 
 
 def build():
     checks = []
-    for pid, (ref, text, note, tech) in sorted(CHECKS.items()):
+    for pid, (ref, text) in sorted(CHECKS.items()):
+        note, tech = NOTE, TECH
         checks.append({
             "property_id": pid,
             "quick_cmd": f"./check {pid} --tier quick",
@@ -43,7 +70,7 @@ def build():
                                        "validity queries per property clause; concrete replay of every counterexample"}],
         "checks": checks,
         "notes": "See DESIGN.md. Exit codes: 0 held / known findings only, 1 VIOLATION, 3 harness error (never a verdict).",
-        "not_applicable": [{"property_id": k, "reason": v} for k, v in sorted(NOT_APPLICABLE.items())],
+        "not_applicable": [{"property_id": k, "reason": v} for k, v in sorted(NOT_APPLICABLE.items()) if k not in CHECKS],
     }
 
 
